@@ -93,7 +93,8 @@ Fixpoint pcs_ok (ns : list tnode) (end_pc : Z) : bool :=
 Inductive spec :=
 | SNone
 (* C07: one block at [off] starting with the items' bytes; label zz_end = address after them *)
-| SData (high : bool) (org off : Z) (items : list item) (end_label : str)
+| SData (high : bool) (org off : Z) (items : list item) (end_label : str) (tail : list (option Z))
+    (* [tail]: 3-byte little-endian values that follow the items ([None] = the end label's own value) *)
 (* C05: branch at run address p to target t, opcode byte, bytes before the branch in its block *)
 | SBranch (high : bool) (p t op : Z) (skip : nat) (expect_reject : bool)
 (* C02: label events (node index, value bound in the label pass); pass-1 and emission addresses per node *)
@@ -130,7 +131,7 @@ Definition emit_addr (em : list (nat * Z * nat * Z)) (i : nat) : option Z :=
 Definition spec_ok (s : spec) (impl : obs asmobs) : bool :=
   match s with
   | SNone => true
-  | SData high org off items end_label =>
+  | SData high org off items end_label tail =>
       match impl with
       | OOk (blocks, labels) =>
           let expected := flat_map item_bytes items in
@@ -140,6 +141,8 @@ Definition spec_ok (s : spec) (impl : obs asmobs) : bool :=
               firstn_eqb expected bs && (addr =? off) &&
               match lookup_label labels end_label with
               | Some e =>
+                  firstn_eqb (flat_map (fun t => le_spec 3 ((match t with Some v => v | None => e end) mod 16777216)) tail)
+                             (skipn (length expected) bs) &&
                   match expected with
                   | [] => true       (* nothing emitted: the address may be normalised, not constrained here *)
                   | _ => match rom_offset high e with
